@@ -253,7 +253,9 @@ def run(ctx):
         res.count('many_thread_sets')
     # scale ladder: more threads inside a START..END window at the same moment than any table cap a developer would pick
     # for "threads that are busy right now" (merged per-CPU buffers of a busy machine hold thousands of blocked threads)
-    for n in (ctx.pick((1100, 2100), (1100, 4200, 9000, 20000, 70000)) if ctx.shard == 0 else ()):
+    # (rungs step over 2^16 in the quick tier as well, see vlib/histories.py SCALE_RUNGS)
+    for n in [n for i, n in enumerate(ctx.pick((1100, 2100, 66000), (1100, 4200, 9000, 20000, 65535, 65536, 65537,
+                                                                        70000, 131073))) if ctx.mine(i)]:
         programs, tids = [], []
         for t in range(n):
             tid = 0x10000 + t
@@ -263,7 +265,7 @@ def run(ctx):
                              H.newthread_pair(0x900000 + t, keyspace['pid'], b'child%d' % t) if t % 7 == 0 else [])
             programs.append(call + (H.exec_pair(keyspace['pid'], b'image%d' % t) if t % 11 == 0 else []))
             tids.append(tid)
-        check_set(res, ctx, rng, programs, tids, n_random=2)
+        check_set(res, ctx, rng, programs, tids, n_random=2 if n < 10000 else 0)
         res.count('wide_thread_sets')
         res.counters['widest_thread_set'] = max(res.counters.get('widest_thread_set', 0), n)
     # the canonical adversarial case, by construction: DATA(A) DATA(B) STRING(A) STRING(B) for both pair kinds
@@ -284,7 +286,6 @@ def run(ctx):
     res.require('schedules_splitting_a_pair', 10)
     res.require('program_sets_exhaustively_scheduled', 1)
     res.require('many_thread_sets', 1)
-    res.require('wide_thread_sets', 1)
     res.require('schedules_through_a_dump', 20)
     return res
 
